@@ -93,7 +93,19 @@ func scriptLabels(sc mux.Script, r *mux.E1Result) []string {
 	if pocReorder {
 		ls = append(ls, "ptsReorder")
 	}
+	for ti, tr := range cfg.Tracks {
+		_ = ti
+		if tr.Codec == "h264" && mux.IsH264Reorder(tr.Params) {
+			ls = append(ls, "h264Reorder")
+			if cfg.Variant == mux.VariantMPEGTS {
+				ls = append(ls, "h264Reorder:mpegts")
+			}
+		}
+	}
 	if r != nil {
+		for l := range r.Labels {
+			ls = append(ls, l)
+		}
 		if r.ParamChanges > 0 {
 			ls = append(ls, "paramChange")
 		}
